@@ -4,6 +4,7 @@ import Plotink.Proofs.C05Conf
 import Plotink.Proofs.C05FailRep
 import Plotink.Model.Ebb3Params
 import Plotink.Proofs.Ebb3GenLift
+import Plotink.Proofs.Ebb3GenAttr
 
 /-! # C05 — EBB3 command/query framing and fault handling
 
@@ -391,5 +392,151 @@ theorem C05_params :
     srcParams.ignoreCmd = ["rb".toList, "r".toList, "bl".toList] ∧
     srcParams.ignoreQry = ["rb".toList, "r".toList, "bl".toList] := by
   decide
+
+/-! ## Attribution on scripts, and for the regenerated code
+
+`C05_attribution` is about a device that *reacts* to what it is sent (`confDev reply`).  The ports of the regenerated
+code are scripts, fixed in advance.  `confTranscript reply P cs st0 k0 out0 nr0` is the script a conforming device
+produces for the requests the history `cs` actually sends: the read and write outcomes that `confDev reply`, fitted
+with a recorder (`recDev`), hands out while `cs` runs against it.  `C05Replay.replay_run` (a relational walk over all
+38 method bodies: a run against any recorded device is replayed, outcome by outcome, by `scriptDev` on the recorded
+script) and `C05ConfRec.confRecSound` (the recorded log *is* `confScript reply k0` of the texts written so far whenever
+the port is open) give attribution on scripts; `gen_calls_sim` carries it to the regenerated methods. -/
+
+/-- **Attribution on scripts.**  Any history `cs` of in-domain request calls, any error-free start attributes, any
+conforming `reply`, run on `scriptDev` with the script a conforming device produces for the requests this history
+sends (`confTranscript`; the device has received `k0` requests before and has nothing queued):
+* at the end the script is used up — not one read or write outcome is left;
+* after every call: the call returned a value, no error is recorded, and while the port is open what the calls so far
+  have consumed from the script is exactly `confScript reply k0 ts` for the texts `ts` they wrote — each reply was
+  consumed by the request that caused it and no line is left unread between calls (the rest of the script is the
+  answers to requests not sent yet);
+* every call behaves exactly like a call of the same history against `confDev reply`: same result, same texts
+  written, same number of reads, same attributes afterwards;
+* if the port is still open at the end, the whole script is the closed form `confScript reply k0 ts` for the texts
+  `ts` the history wrote, with one successful write outcome per text. -/
+theorem C05_script_attribution (P : Params) (reply : Nat → Str → Nat × Str) (hc : Conforming P reply)
+    (cs : List Call) (hcs : ∀ c ∈ cs, c.method.isRequest = true ∧ c.InDomain)
+    (st0 : St) (h0 : st0.err = Option.none) (k0 : Nat) (out0 : List Str) (nr0 : Nat) :
+    (finalWorld P scriptDev cs ⟨st0, confTranscript reply P cs st0 k0 out0 nr0, out0, nr0⟩).dev = ⟨[], []⟩ ∧
+    (∀ o ∈ runCalls P scriptDev cs ⟨st0, confTranscript reply P cs st0 k0 out0 nr0, out0, nr0⟩,
+      (∃ v, o.res = .ok v) ∧ o.world.st.err = Option.none ∧
+      (o.world.st.port = true → ∃ ts, o.world.out = out0 ++ ts ∧
+        confScript reply k0 ts ++ o.world.dev.reads = (confTranscript reply P cs st0 k0 out0 nr0).reads) ∧
+      ∃ oc ∈ runCalls P (confDev reply) cs ⟨st0, ⟨[], k0⟩, out0, nr0⟩,
+        o.res = oc.res ∧ o.written = oc.written ∧ o.reads = oc.reads ∧ o.world.st = oc.world.st) ∧
+    ((finalWorld P (confDev reply) cs ⟨st0, ⟨[], k0⟩, out0, nr0⟩).st.port = true →
+      ∃ ts, (finalWorld P (confDev reply) cs ⟨st0, ⟨[], k0⟩, out0, nr0⟩).out = out0 ++ ts ∧
+        confTranscript reply P cs st0 k0 out0 nr0 = ⟨confScript reply k0 ts, ts.map (fun _ => WriteEv.ok)⟩) := by
+  obtain ⟨h1, h2, h3⟩ := script_attribution reply P hc cs hcs st0 h0 k0 out0 nr0
+  obtain ⟨g1, g2⟩ := proj_hist P (confDev reply) cs (recStart st0 k0 out0 nr0)
+  have hproj : projW (recStart st0 k0 out0 nr0) = ⟨st0, ⟨[], k0⟩, out0, nr0⟩ := rfl
+  rw [hproj] at g1 g2
+  refine ⟨by rw [h1]; rfl, fun o ho => ?_, fun hp => ?_⟩
+  · obtain ⟨a1, a2, a3, od, hod, hpair⟩ := h3 o ho
+    obtain ⟨oc, hoc, c1, c2, c3, c4⟩ := g2 od hod
+    refine ⟨a1, a2, fun hp => ?_, oc, hoc, ?_, ?_, ?_, ?_⟩
+    · obtain ⟨ts, e1, e2, -⟩ := a3 hp
+      exact ⟨ts, e1, e2⟩
+    · rw [hpair.1, c1]
+    · rw [hpair.2.1, c2]
+    · rw [hpair.2.2.1, c3]
+    · rw [hpair.2.2.2.1, c4]; rfl
+  · rw [g1] at hp ⊢
+    obtain ⟨ts, e1, e2⟩ := h2 hp
+    exact ⟨ts, e1, e2⟩
+
+open Ebb3Gen in
+/-- **Attribution (regenerated code).**  Take any history `cs` of in-domain request calls (all 35 request methods of
+`EBB3` / `EBBMotionWrap`), a conforming `reply` with respect to the constants read from the source, and a world of
+the regenerated code with well-formed attributes and no error whose port plays the script a conforming device produces
+for the requests this history sends (`confTranscript … (absSt w.obj) k0 w.port.log w.port.nread`, ASCII lines; the
+model's raise outcome — which does not occur in it — would be a `SerialException`).  Then, on the regenerated methods:
+* the history runs to its end (no call runs out of fuel) and every call returns a value — no exception;
+* after every call no error is recorded, and while the port is open what has been consumed from the script so far is
+  exactly `confScript reply k0 ts` for the texts `ts` the calls so far handed to `write`: each reply was consumed by the
+  request that caused it, and no line is left unread between calls;
+* at the end the script is used up: no read outcome and no write outcome is left. -/
+theorem C05_gen_attribution (fuel : Nat) (reply : Nat → Str → Nat × Str) (hc : Conforming srcParams reply)
+    (cs : List Call) (hcs : ∀ c ∈ cs, Covered fuel c ∧ c.method.isRequest = true ∧ c.InDomain)
+    (w : PyObj.World Gen.EBB3_Obj) (ho : ObjOk w.obj) (he : w.obj.err = .none) (k0 : Nat)
+    (ha : AsciiScript (confTranscript reply srcParams cs (absSt w.obj) k0 w.port.log w.port.nread))
+    (hr : w.port.reads = (confTranscript reply srcParams cs (absSt w.obj) k0 w.port.log w.port.nread).reads.map encRd)
+    (hw : w.port.writes = (confTranscript reply srcParams cs (absSt w.obj) k0 w.port.log w.port.nread).writes.map encWr) :
+    (genCalls fuel cs w).length = cs.length ∧
+    (∀ o ∈ genCalls fuel cs w, ∃ v w', o = .val v w' ∧ w'.obj.err = .none ∧
+      (w'.obj.port = .port → ∃ ts, w'.port.log = w.port.log ++ ts ∧
+        confScript reply k0 ts ++ (absWorld w').dev.reads = (absWorld w).dev.reads)) ∧
+    ∃ wF, genFinal fuel cs w = some wF ∧ wF.port.reads = [] ∧ wF.port.writes = [] ∧ wF.obj.err = .none := by
+  have hg : Good w := good_of_script w ho _ ha hr hw
+  have habs := absWorld_of_script w _ hr hw
+  have hst0 : (absSt w.obj).err = Option.none := by simp [absSt, he, absOpt]
+  have hcov : ∀ c ∈ cs, Covered fuel c := fun c hc' => (hcs c hc').1
+  have henv : ∀ c ∈ cs, Env c w := by
+    intro c hc'
+    have hreq := (hcs c hc').2.1
+    cases c <;> first | trivial | exact rebootW_of_script w _ hw | (simp [Call.method, Method.isRequest] at hreq)
+  have hpre := histPre_of_env fuel cs w henv
+  obtain ⟨m1, m2, -⟩ := C05_script_attribution srcParams reply hc cs (fun c hc' => (hcs c hc').2)
+    (absSt w.obj) hst0 k0 w.port.log w.port.nread
+  rw [← habs] at m1 m2
+  obtain ⟨hlen, hmem⟩ := callsSim_mem (gen_calls_sim fuel cs w hcov hg hpre)
+  refine ⟨by rw [hlen, runCalls_length], fun o ho' => ?_, ?_⟩
+  · obtain ⟨m, hm, hsim⟩ := hmem o ho'
+    obtain ⟨⟨v, hv⟩, herr, hcons, -⟩ := m2 m hm
+    rw [hv] at hsim
+    obtain ⟨w', e1, e2, hg'⟩ := sim_val hsim
+    refine ⟨_, w', e1, ?_, fun hp => ?_⟩
+    · have h1 : (absWorld w').st.err = Option.none := by rw [e2]; exact herr
+      exact absOpt_none hg'.obj.err h1
+    · have hpt : m.world.st.port = true := by rw [← e2]; exact port_of_absSt _ hp
+      obtain ⟨ts, t1, t2⟩ := hcons hpt
+      refine ⟨ts, ?_, ?_⟩
+      · have h2 : (absWorld w').out = m.world.out := by rw [e2]
+        exact h2.trans t1
+      · rw [e2, t2, habs]
+  · obtain ⟨wF, f1, f2, hgF⟩ := gen_final_sim fuel cs w hcov hg hpre
+    have hdev : (absWorld wF).dev = ⟨[], []⟩ := by rw [f2]; exact m1
+    have hr0 : wF.port.reads.map absRd = [] := congrArg (fun x => x.reads) hdev
+    have hw0 : wF.port.writes.map absWr = [] := congrArg (fun x => x.writes) hdev
+    refine ⟨wF, f1, List.map_eq_nil_iff.mp hr0, List.map_eq_nil_iff.mp hw0, ?_⟩
+    have hfin := (script_attribution reply srcParams hc cs (fun c hc' => (hcs c hc').2) (absSt w.obj) hst0 k0
+      w.port.log w.port.nread).1
+    rw [← habs, ← f2] at hfin
+    have herrF : (absWorld wF).st.err = Option.none := by
+      rw [hfin]
+      exact (attribution_rec reply srcParams hc ⟨k0, w.port.log, [], []⟩ cs (fun c hc' => (hcs c hc').2) _
+        ⟨hst0, fun _ => ⟨rfl, [], by simp [recStart], by simp [recStart], by simp [recStart, confScript],
+          by simp [recStart]⟩⟩).1.1
+    exact absOpt_none hgF.obj.err herrF
+
+open Ebb3Gen in
+/-- the hypotheses of `C05_gen_attribution` are satisfiable: a three-call history against `demoReply` -/
+example : ∃ (w : PyObj.World Gen.EBB3_Obj) (cs : List Call), cs.length = 3 ∧
+    (∀ c ∈ cs, Covered 26 c ∧ c.method.isRequest = true ∧ c.InDomain) ∧ ObjOk w.obj ∧ w.obj.err = .none ∧
+    AsciiScript (confTranscript demoReply srcParams cs (absSt w.obj) 0 w.port.log w.port.nread) ∧
+    w.port.reads = (confTranscript demoReply srcParams cs (absSt w.obj) 0 w.port.log w.port.nread).reads.map encRd ∧
+    w.port.writes = (confTranscript demoReply srcParams cs (absSt w.obj) 0 w.port.log w.port.nread).writes.map encWr := by
+  refine ⟨⟨{ Gen.EBB3_Obj.init with port := .port },
+    ⟨[.line "QG,1,1".toList, .line "CS,1,1".toList, .line "QS,1,1".toList], [.ok, .ok, .ok], [], 0⟩, {}⟩,
+    [.query_statusbyte, .clear_steps, .query_steps], rfl, ?_,
+    ⟨Or.inl rfl, trivial, trivial, Or.inl rfl, trivial, trivial, trivial⟩, rfl, ?_, ?_, ?_⟩
+  · intro c hc
+    simp only [List.mem_cons, List.mem_nil_iff, or_false] at hc
+    rcases hc with rfl | rfl | rfl <;> exact ⟨⟨rfl, trivial, Nat.le_refl _⟩, rfl, trivial⟩
+  · have h : absSt ({ Gen.EBB3_Obj.init with port := .port } : Gen.EBB3_Obj) = { St.init with port := true } := rfl
+    show AsciiScript (confTranscript demoReply srcParams _ (absSt _) 0 [] 0)
+    rw [h, demoTranscript]
+    intro s hs
+    simp only [List.mem_cons, List.mem_nil_iff, or_false, ReadEv.line.injEq] at hs
+    rcases hs with rfl | rfl | rfl <;> decide
+  · have h : absSt ({ Gen.EBB3_Obj.init with port := .port } : Gen.EBB3_Obj) = { St.init with port := true } := rfl
+    show _ = (confTranscript demoReply srcParams _ (absSt _) 0 [] 0).reads.map encRd
+    rw [h, demoTranscript]
+    rfl
+  · have h : absSt ({ Gen.EBB3_Obj.init with port := .port } : Gen.EBB3_Obj) = { St.init with port := true } := rfl
+    show _ = (confTranscript demoReply srcParams _ (absSt _) 0 [] 0).writes.map encWr
+    rw [h, demoTranscript]
+    rfl
 
 end Plotink
